@@ -83,7 +83,10 @@ def grid_slice_interp(grid: NssGrid, value: float, axis: Any) -> NssGrid:
 
     axis = grid.axis_names.index(axis) if isinstance(axis, str) else axis
 
-    new_data = interp1d(grid.axes[axis], grid.data, axis=axis)(value)
+    # the blend weights are formed in double: in the axis' own dtype the node spacing of a narrow
+    # integer axis overflows and a single / half precision axis is not reproduced at its nodes
+    x = np.asarray(grid.axes[axis], dtype=np.float64)
+    new_data = interp1d(x, grid.data, axis=axis)(value)
     new_axes = [ax for i, ax in enumerate(grid.axes) if i != axis]
     new_names = [n for i, n in enumerate(grid.axis_names) if i != axis]
     return NssGrid(new_data, new_axes, new_names)
